@@ -93,3 +93,65 @@ def all_st_paths(G, limit=5000):
 
 def pairs(w):
     return list(zip(w, w[1:]))
+
+
+FLOAT_VALUES = [0.1, 0.2, 0.3, 0.7, 1.1, 2.2, 0.05, 0.15, 3.3, 0.6]
+
+
+def float_conserving_dag(rng):
+    """DAG with INEXACT float flows that satisfy flow conservation exactly in float arithmetic (the sums are formed in the
+    order in which networkx enumerates in-/out-edges, as graphutils.check_flow_conservation does), e.g. trunk = 0.2 + 0.1.
+    Families: out-tree (fan-out), in-tree (fan-in), chain + fan, and superpositions of paths on a random DAG kept only if
+    exactly conserving.  Returns (G, number of leaves/paths used)."""
+    fam = rng.choice(["out", "in", "out", "in", "super", "super"])
+    G = nx.DiGraph()
+    if fam in ("out", "in"):
+        # random tree given by parent pointers; leaf flows drawn, inner flows = float sum in networkx' enumeration order
+        n = rng.randint(3, 8)
+        parent = {i: rng.randrange(0, i) for i in range(1, n)}
+        children = {i: [c for c in range(1, n) if parent[c] == i] for i in range(n)}
+        chain = rng.choice([0, 0, 1, 2])                       # unary trunk above the root
+        name = lambda i: f"x{i}"
+        def build(i):
+            # returns the flow that must enter node i
+            if not children[i]:
+                return None
+            for c in children[i]:
+                fc = build(c)
+                if fc is None:
+                    fc = rng.choice(FLOAT_VALUES)
+                e = (name(i), name(c)) if fam == "out" else (name(c), name(i))
+                G.add_edge(*e, flow=fc)
+            total = 0
+            it = G.out_edges(name(i), data=True) if fam == "out" else G.in_edges(name(i), data=True)
+            for _, _, d in it:
+                total += d["flow"]
+            return total
+        top = build(0)
+        if top is None:
+            return float_conserving_dag(rng)
+        prev = name(0)
+        for j in range(chain + 1):
+            e = (f"r{j}", prev) if fam == "out" else (prev, f"r{j}")
+            G.add_edge(*e, flow=top); prev = f"r{j}"
+        return G, sum(1 for i in range(n) if not children[i])
+    for _ in range(200):
+        H = rand_dag(rng, nmax=rng.choice([4, 5, 6]))
+        for e in H.edges(): H.edges[e]["flow"] = 0
+        paths = all_st_paths(H); k = rng.choice([2, 3, 3, 4])
+        for _ in range(k):
+            p = rng.choice(paths); w = rng.choice(FLOAT_VALUES)
+            for e in pairs(p): H.edges[e]["flow"] += w
+        H.remove_edges_from([e for e in H.edges() if H.edges[e]["flow"] == 0])
+        H.remove_nodes_from([v for v in list(H.nodes()) if H.degree(v) == 0])
+        ok = H.number_of_edges() >= 2
+        for v in H.nodes():
+            if H.in_degree(v) and H.out_degree(v):
+                a = 0
+                for _, _, d in H.out_edges(v, data=True): a += d["flow"]
+                b = 0
+                for _, _, d in H.in_edges(v, data=True): b += d["flow"]
+                ok &= a == b
+        if ok and any(x != int(x * 8) / 8 for _, _, x in H.edges(data="flow")):
+            return H, k
+    return float_conserving_dag(rng)
